@@ -1047,11 +1047,17 @@ pub fn derive_path_ast(doc: &M, ch: &[u16]) -> PathAst {
     let nsteps = [0, 1, 1, 2, 2, 3, 3, 4, 5][r.below(9)];
     let mut steps = vec![];
     let mut front: Vec<Item> = vec![Item { v: doc, sure: true }];
-    for _ in 0..nsteps {
+    for k in 0..nsteps {
+        // steer by a container of the frontier when there is one, so that later steps
+        // still have something to select from
+        let guide = front.iter().find(|i| i.v.is_container()).or(front.first()).map(|i| i.v);
+        if front.is_empty() && k > 0 && r.below(3) != 0 {
+            break;
+        }
         let s = if r.below(4) == 0 {
             Step::Filter(Box::new(gen_expr(doc, front.first().map(|i| i.v).or(Some(doc)), &mut r, 0)))
         } else {
-            gen_plain_step(front.first().map(|i| i.v), &mut r)
+            gen_plain_step(guide, &mut r)
         };
         front = apply_step(doc, front, &s).unwrap_or_default();
         steps.push(s);
